@@ -225,6 +225,7 @@ def run(run):
             outcome_rules(run, F, E)
             plan_exists(run, F, E)
             reset_completeness(run, F, E, 'C09.f')
+            c08.status_reports(run, F, E, 'C09.g')
             cycle_status_reset(run, F, E)
             c08.status_rules(run, F, E)
             records.definite_init(run, 'C09.c', F)
